@@ -388,7 +388,7 @@ def handle (line : String) : String :=
     -- this type, expanded through the document's components, is the conversion of the type's own
     -- schema expanded through its own definitions (the conversion itself is what `dt` compares
     -- with the model)
-    out id (impl == ["1"]) (b2s (impl == ["1"])) s!"da-{if tname.endsWith "Item" then "same-name" else if tname.startsWith "param_" then "parameter" else if tname.startsWith "header_" then "header" else "family"}" "-" "1"
+    out id (impl == ["1"]) (b2s (impl == ["1"])) s!"da-{if tname.endsWith "Item" then "same-name" else if tname.startsWith "param_" then "parameter" else if tname.startsWith "header_" then "header" else if tname.startsWith "error_" then "error-type" else "family"}" "-" "1"
   | [stream, id, nameH, schemaH] =>
     if stream != "rs" && stream != "us" && stream != "rv" then bad id "unknown-stream" else
     match decodeName nameH, decodeSchema schemaH, impl with
